@@ -438,6 +438,8 @@ def run(ctx):
         os.makedirs(os.path.join(base, pkg))
         open(os.path.join(base, pkg, "__init__.py"), "w").close()
         calls = ["1", "1, 2", "1, 2, 3", "1, 2, 4", "1, 3, 2", "1, 2, 3, 0"]
+        # ... and sequence literals as the one argument: nesting is part of the value ((1, (2, 3)) is not (1, 2, 3))
+        calls += ["(1, (2, 3))", "(1, 2, 3)", "[[1], [2, 3]]", "((1, 2), 3)", "((1,), 2, 3)", "[1, 2, 3, []]"]
         src = "import dds\n\ndef g(a, *rest):\n    return repr((a, rest))\n\n" + "".join(
             "def top_%d():\n    return dds.keep('/v%d', g, %s)\n\n" % (i, i, c) for i, c in enumerate(calls))
         with open(os.path.join(base, pkg, "va.py"), "w") as fh:
